@@ -48,7 +48,9 @@ pub fn gen_token(rng: &mut Rng) -> B {
 }
 
 fn gen_needle(rng: &mut Rng, hay: &[u8]) -> String {
-    const FIXED: &[&str] = &["=", "-", "--", "a", "ab", "é", "€", ",", "==", "a=", "😀", ".", "\u{301}", "e", "1", "-=", "=-"];
+    // U+FFFD is what a lossy conversion puts in place of invalid bytes: a needle holding it must not be
+    // "found" there
+    const FIXED: &[&str] = &["=", "-", "--", "a", "ab", "é", "€", ",", "==", "a=", "😀", ".", "\u{301}", "e", "1", "-=", "=-", "\u{fffd}", "\u{fffd}", "a\u{fffd}", "\u{fffd}=", "-\u{fffd}"];
     if rng.chance(1, 2) && !hay.is_empty() {
         // a UTF-8 substring of the haystack when there is one
         for _ in 0..4 {
